@@ -154,7 +154,12 @@ func colorFunc(name string, args []Token) (Atom, bool) {
 			a.RGBA[i] = math.Max(0, math.Min(255, v))
 		}
 	} else {
-		if nums[0].T != Number || nums[1].T != Percentage || nums[2].T != Percentage {
+		sawComma := false
+		for _, t := range args {
+			sawComma = sawComma || t.T == Comma
+		}
+		// CSS Color 4: in the space separated form saturation and lightness may be plain numbers, N means N%
+		if nums[0].T != Number || sawComma && (nums[1].T != Percentage || nums[2].T != Percentage) {
 			return Atom{}, false
 		}
 		r, g, b := hsl2rgb(val(nums[0]), math.Max(0, math.Min(1, val(nums[1])/100)), math.Max(0, math.Min(1, val(nums[2])/100)))
